@@ -7,8 +7,11 @@ cd "$here"
 one() {
   d="$1"; tier="$2"
   name="$(basename "$d")"; id="${name%%-*}"
+  # a change written against one property may be decided by another property's check (meta.json: "check_with")
+  cw="$(/venv/bin/python -c "import json,sys; print(json.load(open(sys.argv[1])).get('check_with') or '')" "$d/meta.json" 2>/dev/null)"
+  [ -n "$cw" ] && id="$cw"
   out="$(tools/with_mutant.sh "$d/patch.diff" -- ./check "$id" "$tier" 2>&1)"; rc=$?
-  if [ $rc -eq 1 ]; then echo "DETECTED $name: $(echo "$out" | grep -m1 '^  key=' | cut -c1-160)"; else echo "MISSED   $name (rc=$rc)"; fi
+  if [ $rc -eq 1 ]; then echo "DETECTED $name${cw:+ (by $cw)}: $(echo "$out" | grep -m1 '^  key=' | cut -c1-160)"; else echo "MISSED   $name (rc=$rc)"; fi
 }
 export -f one
 ls -d seeded/*/ | sed 's#/$##' | xargs -P "$par" -I{} bash -c 'one "$0" "$1"' {} "$tier"
